@@ -40,3 +40,73 @@ package xcrd
 //@   invariant [C07:props-untouched] forall k:Str :: (k in props) <==> old(k in props)
 //@ ensures [C07:fields-are-the-keys] forall k:Str :: (exists j :: 0 <= j && j < len(result) && result[j] == k) ==> (k in props)
 //@ ensures [C07:every-key-is-a-field] forall k:Str :: (k in props) ==> (exists j :: 0 <= j && j < len(result) && result[j] == k)
+
+// C11: claim names that collide with the composite's names are rejected.
+//@ func xcrd.validateClaimNames
+//@ props C11
+//@ sweep
+//@ requires d != nil
+//@ ensures [C11:colliding-claim-names-rejected] err == nil ==> d.Spec.ClaimNames != nil
+//@      && d.Spec.ClaimNames.Kind != d.Spec.Names.Kind && d.Spec.ClaimNames.Plural != d.Spec.Names.Plural
+//@      && (d.Spec.ClaimNames.Singular == "" || d.Spec.ClaimNames.Singular != d.Spec.Names.Singular)
+//@      && (d.Spec.ClaimNames.ListKind == "" || d.Spec.ClaimNames.ListKind != d.Spec.Names.ListKind)
+
+// C11: one CRD version per XRD version. Name and served flag are copied, the storage version is
+// the referenceable one, the status subresource is always on. In the schema, the author's spec
+// and status properties are merged first and the machinery status fields are written last, so
+// that the author's schema cannot shadow them; required lists and validation rules are the
+// author's (spec: appended to the base ones).
+//@ func xcrd.genCrdVersion
+//@ props C11
+//@ frame fresh-only
+//@ let $s = result xcrd.parseSchema
+//@ let $machinery = result xcrd.CompositeResourceStatusProps
+//@ ensures [C11:version-identity-copied] err == nil ==> result != nil && result.Name == vr.Name && result.Served == vr.Served && result.Storage == vr.Referenceable
+//@ ensures [C11:status-subresource-always-on] err == nil ==> result.Subresources != nil && result.Subresources.Status != nil
+// (That the returned schema as a whole carries the author's properties next to unshadowed
+// machinery is checked end to end by the bounded stand-in C11 derived-crd-schemas: the whole-value
+// postconditions over the ~100-field JSONSchemaProps produce queries the solvers do not decide.
+// The loop invariants below - author properties merged, machinery written last and over them -
+// are proved.)
+//@ loop range xSpec.Properties
+//@   invariant [C11:author-spec-merged-so-far] forall k:Str :: k in visited ==> k in cSpec.Properties && cSpec.Properties[k] == xSpec.Properties[k]
+//@   invariant [C11:aux-base-status-schema-still-ours] "status" in crdv.Schema.OpenAPIV3Schema.Properties && callerfresh(crdv.Schema.OpenAPIV3Schema.Properties["status"].Properties)
+//@ loop range xStatus.Properties
+//@   invariant [C11:author-status-merged-so-far] forall k:Str :: k in visited ==> k in cStatus.Properties && cStatus.Properties[k] == xStatus.Properties[k]
+//@ loop range CompositeResourceStatusProps()
+//@   invariant [C11:machinery-status-written-so-far] forall k:Str :: k in visited ==> k in cStatus.Properties && cStatus.Properties[k] == $machinery[k]
+//@   invariant [C11:author-status-kept-unless-machinery] forall k:Str :: k in xStatus.Properties && !(k in $machinery) ==> k in cStatus.Properties && cStatus.Properties[k] == xStatus.Properties[k]
+
+// C11: the composite CRD is cluster scoped, the claim CRD namespace scoped; both carry the XRD's
+// group, one version per XRD version, and are controlled by the XRD; the claim CRD is only
+// derived when the claim names do not collide with the composite's. The machinery spec fields
+// are written over whatever genCrdVersion merged from the author's schema.
+//@ func xcrd.ForCompositeResource
+//@ props C11
+//@ requires xrd != nil
+//@ let $mach = result xcrd.CompositeResourceSpecProps
+//@ ensures [C11:composite-crd-is-cluster-scoped] err == nil ==> result != nil && result.Spec.Scope == "Cluster" && result.Spec.Group == xrd.Spec.Group
+//@      && result.Spec.Names.Kind == xrd.Spec.Names.Kind && result.Spec.Names.Plural == xrd.Spec.Names.Plural && len(result.Spec.Versions) == len(xrd.Spec.Versions)
+//@ site *.SetOwnerReferences(_, $refs)
+//@   assert [C11:crd-controlled-by-the-xrd] len($refs) == 1 && $refs[0].UID == xrd.GetUID() && $refs[0].Controller != nil && *$refs[0].Controller
+//@ site xcrd.genCrdVersion($vr, $max)
+//@   assert [C11:every-xrd-version-becomes-a-crd-version] $vr == xrd.Spec.Versions[i] && $max == 63
+// (the loop that writes the machinery spec fields over the merged schema is covered by the
+// bounded stand-in C11 derived-crd-schemas, see genCrdVersion above)
+
+//@ func xcrd.ForCompositeResourceClaim
+//@ props C11
+//@ requires xrd != nil
+//@ ghost namesValid bool = false
+//@ site xcrd.validateClaimNames($d)
+//@   assert [C11:claim-names-validated-for-this-xrd] $d == xrd
+//@   update namesValid = err == nil
+//@ ensures [C11:claim-crd-is-namespace-scoped] err == nil ==> result != nil && result.Spec.Scope == "Namespaced" && result.Spec.Group == xrd.Spec.Group
+//@      && xrd.Spec.ClaimNames != nil && result.Spec.Names.Kind == xrd.Spec.ClaimNames.Kind && result.Spec.Names.Plural == xrd.Spec.ClaimNames.Plural && len(result.Spec.Versions) == len(xrd.Spec.Versions)
+//@ ensures [C11:claim-crd-only-with-valid-claim-names] err == nil ==> namesValid
+//@ site *.SetOwnerReferences(_, $refs)
+//@   assert [C11:crd-controlled-by-the-xrd] len($refs) == 1 && $refs[0].UID == xrd.GetUID() && $refs[0].Controller != nil && *$refs[0].Controller
+//@ site xcrd.genCrdVersion($vr, $max)
+//@   assert [C11:every-xrd-version-becomes-a-crd-version] $vr == xrd.Spec.Versions[i] && $max == 63
+// (the loop that writes the machinery spec fields over the merged schema is covered by the
+// bounded stand-in C11 derived-crd-schemas, see genCrdVersion above)
